@@ -35,7 +35,7 @@ RULE = ("program = constructor variant (arrays / lists / int dtype / strided / r
         " Round-5 classes: a copy.deepcopy / pickle duplicate taken mid-program and continued in lock-step with the object; a 'threads' kind (programs replayed concurrently on separate objects)."
         " Round-6 classes: every processing method must return the object it was called on (asserted on every applied operation)."
         " Round-7 classes: rare interpolate(n = 66 000..90 000) steps, resampling to the same number of points.")
-REQUIRED_MONITORS = ["threads:weaver", "threads:first_use:weaver_cold", "threads:first_use_yields_injected", "c09:duplicate", "weaver_invariant", "c09:caller_arrays", "c09:original_unchanged", "c09:restore_differential"]
+REQUIRED_MONITORS = ["c09:getter_results_kept", "threads:weaver", "threads:first_use:weaver_cold", "threads:first_use_yields_injected", "c09:duplicate", "weaver_invariant", "c09:caller_arrays", "c09:original_unchanged", "c09:restore_differential"]
 ASSUMPTIONS = ["operations are generated with admissible arguments only; an exception from such an operation is reported",
                "indices-based truncation is only issued while working and reference series are the same samples"]
 NSHARDS = 16
@@ -156,6 +156,21 @@ def same_state(a, b):
 def step(ctx, cid, rng, wv, op, guard, prog, label):
     """apply one mutator with every per-step monitor; returns False when a violation was recorded"""
     orig_before = [np.array(a).copy() for a in wv.get_original()]
+    if rng is not None and rng.integers(0, 4) == 0:
+        # what a getter returned is the caller's from then on: kept, and handed to a second Weaver as its input - from
+        # now on these are "arrays handed in by the caller", whatever the first object goes on to do (restore_original,
+        # further processing)
+        from traffic_weaver import Weaver as _Weaver
+        which = ["get", "get_reference", "get_original"][int(rng.integers(0, 3))]
+        hx, hy = getattr(wv, which)()
+        if isinstance(hx, np.ndarray) and isinstance(hy, np.ndarray) and len(hx) == len(hy) and len(hx) >= 1:
+            guard.add("%s()[0] kept before %s" % (which, label), hx)
+            guard.add("%s()[1] kept before %s" % (which, label), hy)
+            try:
+                guard.keep = getattr(guard, "keep", []) + [_Weaver(hx, hy)]
+            except Exception:
+                pass
+            ctx.monitor("c09:getter_results_kept")
     try:
         owned = W.apply(wv, op)
     except Exception as e:
